@@ -224,6 +224,7 @@ class PyExec:
         self.pruned = 0
         self.modname = os.path.basename(module_path)[:-3]
         self.builtin_calls = 0
+        self.shifted = {}        # term id of  v << k (constant k)  ->  k
 
     # -- lookup ------------------------------------------------------------
     def find(self, qual):
@@ -862,6 +863,14 @@ class PyExec:
                     st.pc.append(z3.And(q.t >= exact - eps * z3.If(exact >= 0, exact, -exact),
                                         q.t <= exact + eps * z3.If(exact >= 0, exact, -exact)))
                     yield st, q
+        elif isinstance(op, (ast.LShift, ast.RShift)) and isinstance(b, int) and not isinstance(b, bool) and b >= 0:
+            # constant shift count: exact arithmetic (x * 2^k, floor(x / 2^k))
+            if isinstance(op, ast.LShift):
+                r = SV(x * (1 << b), 'int')
+                self.shifted[r.t.get_id()] = b
+                yield st, r
+            else:
+                yield st, SV(py_floordiv(x, z3.IntVal(1 << b)), 'int')
         elif isinstance(op, (ast.LShift, ast.RShift)):
             s0 = st.fork()
             s0.pc.append(y < 0)
@@ -873,10 +882,19 @@ class PyExec:
                     yield st, SV(x * pow2(y), 'int')
                 else:
                     yield st, SV(py_floordiv(x, pow2(y)), 'int')
+        elif isinstance(op, ast.BitAnd) and isinstance(b, int) and b >= 0 and (b & (b + 1)) == 0:
+            yield st, SV(py_mod(x, z3.IntVal(b + 1)), 'int')       # x & (2^k - 1) = x mod 2^k for every int x
+        elif isinstance(op, ast.BitAnd) and isinstance(a, int) and a >= 0 and (a & (a + 1)) == 0:
+            yield st, SV(py_mod(y, z3.IntVal(a + 1)), 'int')
         elif isinstance(op, ast.BitAnd):
             yield st, SV(bitand(x, y), 'int')
         elif isinstance(op, ast.BitOr):
-            yield st, SV(bitor(x, y), 'int')
+            k = self.shifted.get(x.get_id()) if is_sym(a) else None
+            if k is not None:
+                # (v << k) | w  =  (v << k) + w   when 0 <= w < 2^k
+                yield st, SV(z3.If(z3.And(y >= 0, y < (1 << k)), x + y, bitor(x, y)), 'int')
+            else:
+                yield st, SV(bitor(x, y), 'int')
         elif isinstance(op, ast.BitXor):
             if ta == 'bool' and tb == 'bool':
                 yield st, SV(z3.Xor(term(a), term(b)), 'bool')
